@@ -11,6 +11,7 @@ systems of the two block-circulant solvers, the objective of GenericSubproblemSo
 from __future__ import annotations
 
 import json
+import os
 
 import numpy as np
 
@@ -716,7 +717,10 @@ def correspond(ctx, model):
         if case.get("kind") in RUNNERS:
             ctx.count("corpus")
             RUNNERS[case["kind"]](ctx, model, case)
+    only = os.environ.get("LINSOLVE_STREAMS")  # debugging aid (mutation trials): restrict the streams
     for kind, gen in GENS.items():
+        if only and kind not in only.split(","):
+            continue
         q, t = BUDGET[kind]
         for _ in range(ctx.n(q, t)):
             RUNNERS[kind](ctx, model, gen(ctx.rng))
